@@ -1,9 +1,6 @@
-use std::{
-    ops::{Deref, DerefMut},
-    sync::Arc,
-};
+use std::ops::{Deref, DerefMut};
 
-use crate::state::ObservableState;
+use crate::{state::ObservableState, sync_impl::Arc};
 
 pub trait Lock {
     type RwLock<T>;
@@ -36,13 +33,13 @@ pub trait Lock {
 pub enum SyncLock {}
 
 impl Lock for SyncLock {
-    type RwLock<T> = std::sync::RwLock<T>;
+    type RwLock<T> = crate::sync_impl::RwLock<T>;
     type RwLockReadGuard<'a, T>
-        = std::sync::RwLockReadGuard<'a, T>
+        = crate::sync_impl::RwLockReadGuard<'a, T>
     where
         T: 'a;
     type RwLockWriteGuard<'a, T>
-        = std::sync::RwLockWriteGuard<'a, T>
+        = crate::sync_impl::RwLockWriteGuard<'a, T>
     where
         T: 'a;
     type Shared<T> = readlock::Shared<T>;
